@@ -1264,6 +1264,11 @@ func stringToTTL(token string) (uint32, bool) {
 		default:
 			return 0, false
 		}
+		// Stop as soon as the value is out of range, so that neither the
+		// number nor the sum can wrap around.
+		if i > math.MaxUint32 || s > math.MaxUint32 {
+			return 0, false
+		}
 	}
 	if s+i > math.MaxUint32 {
 		return 0, false
